@@ -584,9 +584,14 @@ func (m *Mint) RequestMeltQuote(meltQuoteRequest nut05.PostMeltQuoteBolt11Reques
 	quoteAmount := invoiceSatAmount
 
 	// check if a mint quote exists with the same invoice.
-	_, err = m.db.GetMintQuoteByPaymentHash(bolt11.PaymentHash)
+	mintQuote, err := m.db.GetMintQuoteByPaymentHash(bolt11.PaymentHash)
 	isInternal := false
 	if err == nil {
+		// the quotes are settled internally, so the request has to be the invoice of the mint quote.
+		// Another invoice with the same payment hash (and any amount) must not settle it.
+		if mintQuote.PaymentRequest != request {
+			return storage.MeltQuote{}, cashu.BuildCashuError("invoice does not match the mint quote with the same payment hash", cashu.MeltQuoteErrCode)
+		}
 		isInternal = true
 	}
 
